@@ -137,7 +137,8 @@ def replace_ref(text, oldvalue, newvalue="n/a"):
         str: The modified string with the ref replaced or removed.
     """
     # If it's not n/a, we can just replace directly.
-    if newvalue != "n/a":
+    # An empty replacement (e.g. a categorical column whose cell is n/a or not a known key) is removed like n/a.
+    if newvalue and newvalue != "n/a":
         return text.replace(oldvalue, newvalue)
 
     def _remover(match):
